@@ -315,3 +315,19 @@ CHECKS = {
                       fuzz=[dict(name="FuzzC14", seconds=120, seed_corpus=True)]),
     ),
 }
+
+# Scale: generator classes added after the seeded-change rounds that asked for regressions beyond a size threshold.
+_LARGE = (" Scale: one case in sixteen (a conjunction of fair coins - rapid's integer ranges favour their ends) is a ledger of "
+          "realistic size instead of a small example: 60-200 accounts (paths up to 9 segments, segment and commodity names that are long and share "
+          "long prefixes), 10-40 commodities, 400-1600 generated actions with bursts of 200-1200 directives on one day, transactions with "
+          "16-40 bookings, quantities beyond 2^31/2^53/2^64, files of 60-150 KB.")
+for _p in ("C01", "C02", "C03", "C04", "C05", "C06", "C09", "C14", "C16", "C17", "C19"):
+    CHECKS[_p]["rule"] += _LARGE
+CHECKS["C07"]["rule"] += (" Scale: one input in a thousand is a file of 1025-2600 directives (0.3-1.5 MB), some transactions with 64-1100 bookings.")
+CHECKS["C08"]["rule"] += (" Scale: one file in 256 (library) / 32 (CLI) has 1025-4500 directives (up to several hundred KiB).")
+CHECKS["C10"]["rule"] += (" Scale: quantities with 19 and more significant digits (coefficients beyond 2^63), accrual windows of more than a thousand periods.")
+CHECKS["C12"]["rule"] += (" Scale: one case in 64 is a price list of 66-160 commodities, most quoted against one commodity, some through another; prices with 9-12 decimals.")
+CHECKS["C13"]["rule"] += (" Scale: statements of 40-120 rows; free-text fields of several hundred bytes with multi-byte letters at every alignment; amounts with two thousands separators.")
+CHECKS["C15"]["rule"] += (" Scale: one case in 32 trains on 150-400 transactions over 66-160 accounts used equally often; target payees never seen in training.")
+CHECKS["C20"]["rule"] += (" Scale: one case in 16 is a portfolio of 33-60 securities funded by transactions with 9-60 bookings.")
+
